@@ -526,6 +526,100 @@ macro_rules! aes_variants {
     }};
 }
 
+// ---------------------------------------------------------------------------
+// Threefish built WITHOUT its `cipher` feature: no KeyInit / BlockCipher traits, only the
+// inherent API. Adapted here (little-endian words, zero tweak = what KeyInit::new does) so that
+// this feature subset takes part in C03 and C16 like any other build variant.
+
+pub trait RawTf: Clone {
+    const WORDS: usize;
+    fn mk(key: &[u8]) -> Self;
+    fn enc_words(&self, w: &mut [u64]);
+    fn dec_words(&self, w: &mut [u64]);
+}
+
+macro_rules! raw_tf {
+    ($t:ty, $n:expr) => {
+        impl RawTf for $t {
+            const WORDS: usize = $n;
+            fn mk(key: &[u8]) -> Self {
+                let k: [u8; $n * 8] = key.try_into().unwrap();
+                <$t>::new_with_tweak(&k, &[0u8; 16])
+            }
+            fn enc_words(&self, w: &mut [u64]) {
+                let a: &mut [u64; $n] = w.try_into().unwrap();
+                self.encrypt_block_u64(a)
+            }
+            fn dec_words(&self, w: &mut [u64]) {
+                let a: &mut [u64; $n] = w.try_into().unwrap();
+                self.decrypt_block_u64(a)
+            }
+        }
+    };
+}
+raw_tf!(threefish_nc_z::Threefish256, 4);
+raw_tf!(threefish_nc_z::Threefish512, 8);
+raw_tf!(threefish_nc_z::Threefish1024, 16);
+
+unsafe fn raw_new<T: RawTf>(slot: *mut u8, key: &[u8]) -> bool {
+    if key.len() != T::WORDS * 8 {
+        return false;
+    }
+    unsafe { ptr::write(slot as *mut T, T::mk(key)) };
+    true
+}
+
+unsafe fn raw_call<T: RawTf, const DEC: bool>(this: *const u8, _shape: Shape, inp: *const u8, outp: *mut u8, n: usize) {
+    // every call shape is served block by block through the u64 API (the adapter, not the crate,
+    // owns the buffer handling here, so C04 says nothing about this variant)
+    let c = unsafe { &*(this as *const T) };
+    let bs = T::WORDS * 8;
+    let mut w = [0u64; 16];
+    for b in 0..n {
+        for i in 0..T::WORDS {
+            let mut x = [0u8; 8];
+            unsafe { ptr::copy_nonoverlapping(inp.add(b * bs + 8 * i), x.as_mut_ptr(), 8) };
+            w[i] = u64::from_le_bytes(x);
+        }
+        if DEC { c.dec_words(&mut w[..T::WORDS]) } else { c.enc_words(&mut w[..T::WORDS]) }
+        for i in 0..T::WORDS {
+            let x = w[i].to_le_bytes();
+            unsafe { ptr::copy_nonoverlapping(x.as_ptr(), outp.add(b * bs + 8 * i), 8) };
+        }
+    }
+}
+
+unsafe fn raw_par(_this: *const u8) -> usize {
+    1
+}
+
+fn raw_info<T: RawTf>(type_name: &'static str, family: &'static str, variant: &'static str, send: bool, sync: bool) -> TypeInfo {
+    TypeInfo {
+        id: 0,
+        name: format!("{}::{}", variant, type_name),
+        type_name,
+        family,
+        variant,
+        role: Role::Both,
+        block: T::WORDS * 8,
+        key_size: T::WORDS * 8,
+        size: core::mem::size_of::<T>(),
+        align: core::mem::align_of::<T>(),
+        zeroize: true,
+        detect: false,
+        send,
+        sync,
+        new_from_slice: raw_new::<T>,
+        new_fixed: raw_new::<T>,
+        clone: Some(g_clone::<T>),
+        drop: g_drop::<T>,
+        enc: Some(raw_call::<T, false>),
+        dec: Some(raw_call::<T, true>),
+        enc_par: Some(raw_par),
+        dec_par: Some(raw_par),
+    }
+}
+
 pub fn build() -> Registry {
     use cipher::consts::*;
     let mut b = Builder { reg: Registry { types: Vec::new(), convs: Vec::new(), families: Vec::new() } };
@@ -599,6 +693,9 @@ pub fn build() -> Registry {
     pair!(b, "threefish256", "threefish", &[32], threefish, threefish_z, Threefish256);
     pair!(b, "threefish512", "threefish", &[64], threefish, threefish_z, Threefish512);
     pair!(b, "threefish1024", "threefish", &[128], threefish, threefish_z, Threefish1024);
+    b.single("threefish256", "threefish", &[32], raw_info::<threefish_nc_z::Threefish256>("Threefish256", "threefish256", "threefish_nc_z", ProbeSend::<threefish_nc_z::Threefish256>::V, ProbeSync::<threefish_nc_z::Threefish256>::V));
+    b.single("threefish512", "threefish", &[64], raw_info::<threefish_nc_z::Threefish512>("Threefish512", "threefish512", "threefish_nc_z", ProbeSend::<threefish_nc_z::Threefish512>::V, ProbeSync::<threefish_nc_z::Threefish512>::V));
+    b.single("threefish1024", "threefish", &[128], raw_info::<threefish_nc_z::Threefish1024>("Threefish1024", "threefish1024", "threefish_nc_z", ProbeSend::<threefish_nc_z::Threefish1024>::V, ProbeSync::<threefish_nc_z::Threefish1024>::V));
     pair!(b, "twofish", "twofish", &[16, 24, 32], twofish, twofish_z, Twofish);
     single!(b, "xtea", "xtea", &[16], xtea, xtea::Xtea, "Xtea", false, noclone);
     single!(b, "xtea", "xtea", &[16], xtea_z, xtea_z::Xtea, "Xtea", true, noclone);
